@@ -116,7 +116,7 @@ Section DeWt.
       apply andb_true_iff in Eb as [H1 H2]. apply Z.leb_le in H1. apply Z.leb_le in H2.
       split; [constructor; assumption | reflexivity].
     - destruct n.
-      + destruct (int_is_exact_float z); [|discriminate]. injection H as <-. split; [constructor | reflexivity].
+      + destruct (int_float_repr z); cbn [option_map] in H; [|discriminate]. injection H as <-. split; [constructor | reflexivity].
       + injection H as <-. split; [constructor | reflexivity].
     - injection H as <-. split; [constructor | reflexivity].
     - destruct s as [|c [|c2 s]]; try discriminate. injection H as <-. split; [constructor | reflexivity].
